@@ -384,11 +384,14 @@ class ApiCall(threading.Thread):
         self.call, self.fn = name, fn
         self.exc = None
         self.result = None
+        self.killed = False
         self.done = threading.Event()
 
     def run(self):
         try:
             self.result = self.fn()
+        except SystemExit:              # kill_thread(): the call never returned (recorded as stuck, not as an outcome)
+            self.killed = True
         except BaseException as e:      # noqa - whatever the API raises is the observation
             self.exc = e
         self.done.set()
